@@ -1,23 +1,48 @@
 /-
   Property C13 — malformed or mismatched input yields an error, never a crash.
-  Statement file (proofs in JdProofs/NoPanic.lean).
+  Statement file (proofs in JdProofs/NoPanic.lean: applying a diff; JdProofs/Robust.lean, namespace
+  `Jd.Robust`, group 1: the readers, the renderers, read-then-apply).
 
   In the model every Go operation that can panic (slice indexing / slicing in list.go) is a partial
-  operation returning `.panic` out of range, guarded exactly where the Go code guards it. The
-  theorem says the guards suffice for EVERY document and EVERY diff (any path: negative, huge or
-  out-of-range indices, wrong container kinds, set paths on non-arrays, any number of values).
-  The readers of the model have no partial operation at all (their result type has no reachable
-  `.panic`); that the Go readers do not panic either is checked by the correspondence stream and
-  the native fuzz targets, it cannot be exhibited by a pure model (stack exhaustion, faults inside
-  encoding/json or yaml.v2).
+  operation returning `.panic` out of range, guarded exactly where the Go code guards it; the
+  result type `Outcome` has the three values `.ok r`, `.err`, `.panic`.
+  * APPLYING: `patch_never_panics` says the guards suffice for EVERY document and EVERY diff (any
+    path: negative, huge or out-of-range indices, wrong container kinds, set paths on non-arrays, any
+    number of values).
+  * READING: for EVERY text (any string, no well-formedness hypothesis at all) the model readers
+    `readJsonM` (ReadJsonString), `readDiffM` (ReadDiffString, native format), `readPatchM`
+    (ReadPatchString, RFC 6902), `readMergeM` (ReadMergeString, RFC 7386) return a result or an error:
+    `read_json_never_panics`, `read_diff_never_panics`, `read_patch_never_panics`,
+    `read_merge_never_panics`. The model readers (path conversion, metadata lines, the 7-state line
+    automaton with the tables generated from the Go source, JSON Pointer decoding, context
+    reconstruction for JSON Patch) contain no partial operation of their own; they compose their
+    sub-steps with `Outcome.bind`, which propagates `.panic`, and the theorems establish by going
+    through every step that `.panic` is unreachable. What this gives for the Go readers is: no
+    panic from jd's own reader logic AS MODELLED; index expressions in the Go readers that the
+    model renders as total list operations are checked by the correspondence stream, not here.
+    `nc : NumCodec` (strconv / encoding/json on number tokens, external code) is arbitrary.
+  * RENDERING in the two translated formats, for EVERY diff: `render_patch_never_panics`,
+    `render_merge_never_panics` (an untranslatable diff is an error value).
+  * THE CLAUSE "applying any successfully read diff to any document": `apply_read_diff_never_panics`,
+    `apply_read_patch_never_panics`, `apply_read_merge_never_panics`, and the whole pipeline text →
+    document, text → diff, apply, as one composition: `read_then_apply_never_panics`.
+
+  NOT PROVED, and not provable on a pure model: stack exhaustion and memory exhaustion on deep or
+  huge input, and faults INSIDE encoding/json or yaml.v2 (the model's JSON parser is total by
+  construction and stands for encoding/json); the YAML reader; the CLI half (exit status 2 and a
+  one-line message: JdProps/C14.lean). These are covered by the hostile-input correspondence stream
+  and the native fuzz targets of ./check C13 only.
 -/
 import JdProofs.NoPanic
+import JdProofs.RobustReaders
 import JdModel.Native
 import JdModel.PatchFmt
 import JdModel.MergeFmt
 
 namespace Jd.Props.C13
 open Jd
+
+/-! ## applying -/
 
 /-- applying any diff to any document terminates with a result or an error -/
 theorem patch_never_panics (n : Json) (d : Diff) : patchM n d ≠ .panic :=
@@ -26,8 +51,65 @@ theorem patch_never_panics (n : Json) (d : Diff) : patchM n d ≠ .panic :=
 theorem patchAll_never_panics (sw : Bool) (n : Json) (d : Diff) : patchAll sw n d ≠ .panic :=
   patchAll_ne_panic sw n d
 
+/-! ## reading arbitrary text -/
+
+/-- reading ANY string as a JSON document: a document or an error -/
+theorem read_json_never_panics (nc : NumCodec) (s : String) : readJsonM nc s ≠ .panic :=
+  Robust.readJsonM_ne_panic nc s
+
+/-- reading ANY string as a native jd diff: a diff or an error -/
+theorem read_diff_never_panics (nc : NumCodec) (s : String) : readDiffM nc s ≠ .panic :=
+  Robust.readDiffM_ne_panic nc s
+
+/-- reading ANY string as a JSON Patch (RFC 6902): a diff or an error -/
+theorem read_patch_never_panics (nc : NumCodec) (s : String) : readPatchM nc s ≠ .panic :=
+  Robust.readPatchM_ne_panic nc s
+
+/-- reading ANY string as a JSON Merge Patch (RFC 7386): a diff or an error -/
+theorem read_merge_never_panics (nc : NumCodec) (s : String) : readMergeM nc s ≠ .panic :=
+  Robust.readMergeM_ne_panic nc s
+
+/-! ## rendering any diff in the translated formats -/
+
+/-- rendering ANY diff as a JSON Patch: a text or an error -/
+theorem render_patch_never_panics (nc : NumCodec) (d : Diff) : renderPatchM nc d ≠ .panic :=
+  Robust.renderPatchM_ne_panic nc d
+
+/-- rendering ANY diff as a JSON Merge Patch: a text or an error -/
+theorem render_merge_never_panics (nc : NumCodec) (d : Diff) : renderMergeM nc d ≠ .panic :=
+  Robust.renderMergeM_ne_panic nc d
+
+/-! ## applying any successfully read diff to any document -/
+
+theorem apply_read_diff_never_panics (nc : NumCodec) (s : String) (c : Json) (d : Diff)
+    (h : readDiffM nc s = .ok d) : patchM c d ≠ .panic :=
+  Robust.patch_readDiff_ne_panic nc s c d h
+
+theorem apply_read_patch_never_panics (nc : NumCodec) (s : String) (c : Json) (d : Diff)
+    (h : readPatchM nc s = .ok d) : patchM c d ≠ .panic :=
+  Robust.patch_readPatch_ne_panic nc s c d h
+
+theorem apply_read_merge_never_panics (nc : NumCodec) (s : String) (c : Json) (d : Diff)
+    (h : readMergeM nc s = .ok d) : patchM c d ≠ .panic :=
+  Robust.patch_readMerge_ne_panic nc s c d h
+
+/-- the whole pipeline as one composition (`>>=` is `Outcome.bind`, which propagates `.panic`): read
+    `doc` as a document, read `text` as a diff in each of the three formats, apply — for ANY two
+    strings the outcome is a result or an error -/
+theorem read_then_apply_never_panics (nc : NumCodec) (doc text : String) :
+    (readJsonM nc doc >>= fun c => readDiffM nc text >>= fun d => patchM c d) ≠ .panic ∧
+    (readJsonM nc doc >>= fun c => readPatchM nc text >>= fun d => patchM c d) ≠ .panic ∧
+    (readJsonM nc doc >>= fun c => readMergeM nc text >>= fun d => patchM c d) ≠ .panic :=
+  Robust.read_then_patch_ne_panic nc doc text
+
+/-! ## Non-vacuity -/
+
 /-- a hostile single hunk (negative index below -1 into a list): an error, not a panic -/
 example : patchM (.arr .raw [.num 0]) [{ path := [.idx (-2)], remove := [.num 0] }] = .err := by
   simp [patchM, patchAll, patchNode.eq_def, effTag, pathMeta, dispatchTag, patchListLeaf]
+
+/-- `.panic` is a genuine third outcome that the composition propagates, so "≠ .panic" is not true
+    by construction of the type -/
+example : ((Outcome.panic : Outcome Json) >>= fun c => patchM c []) = .panic := rfl
 
 end Jd.Props.C13
